@@ -96,7 +96,7 @@ func fieldAccessesShallow(fn *ssa.Function) []fieldAccess {
 	add := func(in ssa.Instruction, t, f string, base ssa.Value, kind string, w bool) {
 		out = append(out, fieldAccess{In: in, Type: t, Field: f, Kind: kind, Write: w, Base: base})
 	}
-	allInstrs(fn, func(in ssa.Instruction) {
+	allInstrsShallow(fn, func(in ssa.Instruction) {
 		switch x := in.(type) {
 		case *ssa.Store:
 			if t, f, b, ok := fieldOfAddr(x.Addr); ok {
@@ -190,6 +190,24 @@ func isFreshObject(base ssa.Value) bool {
 	switch b := base.(type) {
 	case *ssa.Alloc:
 		return true
+	case *ssa.Call:
+		// the result of a constructor the reference tree does not have, every return of which is an
+		// object allocated in that call
+		if h := b.Call.StaticCallee(); h != nil && gNewFuncs[h] && len(h.Blocks) > 0 {
+			all, any := true, false
+			for _, r := range returnsOf(h) {
+				if len(r.Results) == 0 {
+					all = false
+					continue
+				}
+				if a, ok := strip(r.Results[0]).(*ssa.Alloc); ok && a.Heap {
+					any = true
+				} else {
+					all = false
+				}
+			}
+			return all && any
+		}
 	case *ssa.UnOp:
 		// load of a local cell holding a fresh object is not attempted
 		_ = b
@@ -230,7 +248,7 @@ func paramMayBeWritten(g *ssa.Function, idx int, depth int) bool {
 	changed := true
 	for changed {
 		changed = false
-		allInstrs(g, func(in ssa.Instruction) {
+		allInstrsShallow(g, func(in ssa.Instruction) {
 			v, ok := in.(ssa.Value)
 			if !ok || derived[v] {
 				return
@@ -262,7 +280,7 @@ func paramMayBeWritten(g *ssa.Function, idx int, depth int) bool {
 		})
 	}
 	written := false
-	allInstrs(g, func(in ssa.Instruction) {
+	allInstrsShallow(g, func(in ssa.Instruction) {
 		switch x := in.(type) {
 		case *ssa.Store:
 			if derived[x.Addr] {
